@@ -78,6 +78,7 @@ type projRender struct {
 	toks  []projTok
 	defs  map[string]projTok // symbol -> its declaration
 	probe map[string]int     // file -> the empty line inside its function body (completion is also asked there)
+	ext   []projExt          // member functions of global tables, declared in the table's file (own_) or in a requiring file (ext_)
 }
 
 // projRenderWS renders the four files of a workspace.  layout 0: files side by side; layout 1: files scattered over
@@ -107,6 +108,19 @@ func projRenderWS(tc *projCase) *projRender {
 		// globals that no file reads (completion must offer them all the same)
 		emit(fmt.Sprintf("g2_%s = 3", f), projTok{col: 0, name: "g2_" + f, sym: "g2_" + f, def: true})
 		emit(fmt.Sprintf("_G.h2_%s = 4", f), projTok{col: 3, name: "h2_" + f, sym: "h2_" + f, def: true})
+		// a global table with a member of its own, and members added to the tables of the required files
+		emit(fmt.Sprintf("T_%s = {}", f))
+		emit(fmt.Sprintf("function T_%s.own_%s(p) return p end", f, f))
+		r.ext = append(r.ext, projExt{file: f, name: "own_" + f, line: line - 1})
+		seenT := map[string]bool{}
+		for _, g := range tc.Req[f] {
+			if seenT[g] {
+				continue
+			}
+			seenT[g] = true
+			emit(fmt.Sprintf("function T_%s.ext_%s(p) return p end", g, f))
+			r.ext = append(r.ext, projExt{file: f, name: "ext_" + f, line: line - 1})
+		}
 		emit("local M = {}")
 		emit(fmt.Sprintf("M.f_%s = 1", f), projTok{col: 2, name: "f_" + f, sym: "f_" + f, def: true, member: true})
 		emit(fmt.Sprintf("function M.m_%s(q) return q end", f), projTok{col: 11, name: "m_" + f, sym: "m_" + f, def: true, member: true})
@@ -149,6 +163,11 @@ func projRenderWS(tc *projCase) *projRender {
 var projDirs = [][]string{
 	{"main.lua", "a.lua", "b.lua", "c.lua", "t.lua"},
 	{"main.lua", "lib/a.lua", "lib/deep/b.lua", "other/c.lua", "tools/t.lua"},
+}
+
+type projExt struct {
+	file, name string
+	line       int
 }
 
 type projQ struct {
@@ -210,6 +229,13 @@ func projBuildCase(id int, pj *projJob, project bool, kinds string) *proto.Case 
 	for _, f := range projFiles {
 		add(proto.Step{M: "textDocument/documentSymbol", P: json.RawMessage(fmt.Sprintf(`{"textDocument":{"uri":"file://$ROOT/%s"}}`, pj.path[f]))},
 			projQ{label: "outline " + f, kind: "outline"})
+	}
+	seenQ := map[string]bool{}
+	for _, e := range pj.r.ext {
+		if !seenQ[e.name] {
+			seenQ[e.name] = true
+			add(proto.Step{M: "workspace/symbol", P: json.RawMessage(fmt.Sprintf(`{"query":%q}`, e.name))}, projQ{label: "wsym " + e.name, kind: "wsymx", pre: e.name})
+		}
 	}
 	for _, q := range []string{"g_", "fn_a", "m_"} {
 		add(proto.Step{M: "workspace/symbol", P: json.RawMessage(fmt.Sprintf(`{"query":%q}`, q))}, projQ{label: "wsym " + q, kind: "wsym"})
@@ -317,6 +343,17 @@ func projExpect(pj *projJob, asBuilt bool) map[string]string {
 	sort.Strings(dg)
 	exp["diagnostics"] = strings.Join(dg, ",")
 	for _, q := range pj.qs {
+		if q.kind == "wsymx" {
+			// a member function is found by its exact name, at its declaration (every declaration of that name)
+			var ls []string
+			for _, e := range pj.r.ext {
+				if e.name == q.pre {
+					ls = append(ls, fmt.Sprintf("%s:%d", pj.path[e.file], e.line))
+				}
+			}
+			sort.Strings(ls)
+			exp[q.label] = strings.Join(ls, " ")
+		}
 		if q.kind == "comp" && q.pre != "" {
 			// every global of the workspace with the typed prefix is offered
 			var ls []string
@@ -396,6 +433,31 @@ func projObserve(pj *projJob, res *proto.Result) map[string]string {
 	sort.Strings(dg)
 	got["diagnostics"] = strings.Join(dg, ",")
 	for _, q := range pj.qs {
+		if q.kind == "wsymx" && q.step < len(res.Steps) {
+			var syms []struct {
+				Name     string `json:"name"`
+				Location struct {
+					URI   string `json:"uri"`
+					Range struct {
+						Start struct{ Line, Character int } `json:"start"`
+					} `json:"range"`
+				} `json:"location"`
+			}
+			json.Unmarshal(res.Steps[q.step].Reply, &syms)
+			seen := map[string]bool{}
+			var ls []string
+			for _, y := range syms {
+				if strings.HasSuffix(y.Name, q.pre) || strings.Contains(y.Name, q.pre+"(") {
+					x := fmt.Sprintf("%s:%d", strings.TrimPrefix(strings.TrimPrefix(y.Location.URI, "file://"), res.Root+"/"), y.Location.Range.Start.Line)
+					if !seen[x] {
+						seen[x] = true
+						ls = append(ls, x)
+					}
+				}
+			}
+			sort.Strings(ls)
+			got[q.label] = strings.Join(ls, " ")
+		}
 		if q.kind == "comp" && q.pre != "" && q.step < len(res.Steps) {
 			var cl struct {
 				Items []struct {
@@ -606,6 +668,9 @@ func projJudgeAll(c *Ctx, p *pool.Pool, raws []json.RawMessage, kinds string) (i
 					continue // judged against the model above
 				}
 			case "outline", "wsym":
+				if q.kind == "wsymx" {
+					continue
+				}
 			default:
 				continue
 			}
